@@ -996,3 +996,178 @@ func c16OverflowAfterConvertible(c *Ctx) {
 		c.bad("overflow-after-convertible", "flag", wo.Pos(), "willOverflow is never called")
 	}
 }
+
+// ---- addr-guard -----------------------------------------------------------------------------
+
+// addressable reports whether reflect.Value v is addressable by construction:
+// Elem() of reflect.New / of a pointer-kind value produced by reflect.New,
+// Field/Index of an addressable value, a phi of such, the result of a
+// repository function all of whose successful returns are addressable, or a
+// value under a dominating CanAddr() test.
+func (w *World) addressable(v ssa.Value, at ssa.Instruction, depth int, seen map[ssa.Value]bool) bool {
+	if depth > 6 || v == nil || seen[v] {
+		return false
+	}
+	seen[v] = true
+	defer delete(seen, v)
+	if at != nil {
+		for _, ec := range condsDominating(at.Block()) {
+			if cc, ok := ec.Cond.(*ssa.Call); ok && ec.Val && calleeFullName(cc) == "(reflect.Value).CanAddr" && sameValue(cc.Call.Args[0], v) {
+				return true
+			}
+		}
+	}
+	switch x := v.(type) {
+	case *ssa.Call:
+		switch calleeFullName(x) {
+		case "(reflect.Value).Elem":
+			if n, ok := x.Call.Args[0].(*ssa.Call); ok && calleeFullName(n) == "reflect.New" {
+				return true
+			}
+			// Elem of a local that only ever holds reflect.New results
+			return derivesAll(x.Call.Args[0], func(y ssa.Value) bool {
+				c, ok := y.(*ssa.Call)
+				return ok && calleeFullName(c) == "reflect.New"
+			}, nil)
+		case "(reflect.Value).Field", "(reflect.Value).FieldByName":
+			return w.addressable(x.Call.Args[0], at, depth+1, seen)
+		case "(reflect.Value).Index":
+			return true // elements of slices are addressable; of arrays when the array is (not distinguished here)
+		}
+		if callee := staticCallee(x); callee != nil && w.inRepo(callee) && callee.Signature.Results().Len() == 1 {
+			return w.returnsAddressable(callee, 0, depth+1, seen)
+		}
+	case *ssa.Extract:
+		if call, ok := x.Tuple.(*ssa.Call); ok {
+			if callee := staticCallee(call); callee != nil && w.inRepo(callee) {
+				return w.returnsAddressable(callee, x.Index, depth+1, seen)
+			}
+		}
+	case *ssa.Phi:
+		for _, e := range x.Edges {
+			if !w.addressable(e, nil, depth+1, seen) {
+				return false
+			}
+		}
+		return len(x.Edges) > 0
+	}
+	return false
+}
+
+func (w *World) returnsAddressable(f *ssa.Function, idx int, depth int, seen map[ssa.Value]bool) bool {
+	if len(f.Blocks) == 0 {
+		return false
+	}
+	n := 0
+	for _, r := range returnsOf(f) {
+		rv := retVals(r)
+		if idx >= len(rv) {
+			return false
+		}
+		// error returns hand back the zero Value, which callers do not touch
+		if last := rv[len(rv)-1]; len(rv) > 1 && types.TypeString(last.Type(), nil) == "error" && !isNilConst(last) {
+			continue
+		}
+		if len(rv) > 1 {
+			if le, ok := rv[len(rv)-1].Type().Underlying().(*types.Pointer); ok && !isNilConst(rv[len(rv)-1]) && strings.Contains(le.String(), "Error") {
+				continue
+			}
+		}
+		n++
+		if !w.addressable(rv[idx], r, depth, seen) {
+			return false
+		}
+	}
+	return n > 0
+}
+
+// c16AddrGuard: reflect.Value.Addr panics on a value that is not addressable.
+func c16AddrGuard(c *Ctx) {
+	w := c.W
+	n := 0
+	for _, f := range w.Funcs {
+		rel := w.pkgRelOfFn(f)
+		if rel != "transform" && rel != "parse" && rel != "tagformat" && rel != "sources/env" && !strings.HasPrefix(rel, "decoders/") && rel != "sourcewrap" && rel != "helper" {
+			continue
+		}
+		for _, i := range allInstrs(f) {
+			call, ok := i.(*ssa.Call)
+			if !ok || calleeFullName(call) != "(reflect.Value).Addr" {
+				continue
+			}
+			n++
+			c.analysed(relName(f))
+			recv := call.Call.Args[0]
+			c.check(w.addressable(recv, call, 0, map[ssa.Value]bool{}), "addr-guard", relName(f)+"#"+canon(recv), call.Pos(), "the receiver of Addr is addressable by construction (reflect.New(..).Elem(), a field/element of such, a CanAddr test)",
+				"reflect.Value.Addr is called on "+canon(recv)+", which can be a converted, make-built or zero value (not addressable): reflect panics")
+		}
+	}
+	if n == 0 {
+		c.bad("addr-guard", "repo", 0, "no reflect.Value.Addr call found")
+	}
+}
+
+// c16AnonStructOnly: the anonymous-flatten mangler promotes the members of an
+// embedded field only when it is a struct or a pointer to a struct, and its two
+// directions agree: Mangle strips a pointer (recursing on the pointee) and
+// Unmangle rebuilds through unmangleStruct (which calls NumField on the type)
+// only under a test that the pointee's kind is Struct.
+func c16AnonStructOnly(c *Ctx, rule string) {
+	w := c.W
+	mg := w.fn("transform", "AnonymousFlattenMangler.Mangle")
+	um := w.fn("transform", "AnonymousFlattenMangler.Unmangle")
+	us := w.fn("transform", "AnonymousFlattenMangler.unmangleStruct")
+	if !c.need(mg != nil && um != nil && us != nil, "transform.AnonymousFlattenMangler.Mangle/Unmangle/unmangleStruct") {
+		return
+	}
+	// a dominating fact "Kind(Elem(Type)) == Struct" or a switch arm "Kind(Type) == Struct"
+	structFact := func(b *ssa.BasicBlock) (ptrElemStruct, isStruct bool) {
+		for _, ec := range condsDominating(b) {
+			bo, ok := ec.Cond.(*ssa.BinOp)
+			if !ok {
+				continue
+			}
+			k, isC := constInt(bo.Y)
+			kc, isCall := bo.X.(*ssa.Call)
+			if !isC || !isCall || !strings.HasSuffix(calleeFullName(kc), ".Kind") || k != kStruct {
+				continue
+			}
+			eq := bo.Op == token.EQL && ec.Val || bo.Op == token.NEQ && !ec.Val
+			if !eq {
+				continue
+			}
+			var recv ssa.Value
+			if kc.Call.IsInvoke() {
+				recv = kc.Call.Value
+			} else if len(kc.Call.Args) > 0 {
+				recv = kc.Call.Args[0]
+			}
+			if el, ok := recv.(*ssa.Call); ok && strings.HasSuffix(calleeFullName(el), ".Elem") {
+				ptrElemStruct = true
+			} else {
+				isStruct = true
+			}
+		}
+		return
+	}
+	// Mangle: the self-recursion with the pointer stripped
+	n := 0
+	for _, ci := range callsToFn(mg, mg) {
+		n++
+		pe, _ := structFact(ci.(*ssa.Call).Block())
+		c.check(pe, rule, relName(mg)+"#strip-pointer", ci.Pos(), "the pointer is stripped only where the pointee is a struct", "Mangle strips the pointer of an embedded field whatever it points to: an embedded pointer to a named scalar or slice is emitted with the wrong type and Unmangle calls NumField on a non-struct type (panic)")
+	}
+	if n == 0 {
+		c.bad(rule, relName(mg), mg.Pos(), "Mangle does not recurse on the pointee of embedded pointers")
+	}
+	m := 0
+	for _, ci := range callsToFn(um, us) {
+		m++
+		call := ci.(*ssa.Call)
+		pe, st := structFact(call.Block())
+		c.check(pe || st, rule, relName(um)+"#rebuild#"+itoa(m), call.Pos(), "unmangleStruct is called only for a struct / a pointer whose pointee is a struct", "Unmangle rebuilds an embedded pointer through unmangleStruct without a test that the pointee is a struct (NumField panics on other kinds)")
+	}
+	if m == 0 {
+		c.bad(rule, relName(um), um.Pos(), "Unmangle never calls unmangleStruct")
+	}
+}
